@@ -38,6 +38,7 @@ inductive Ev
   | lexStart | lexEnd                               -- start_new_file / end_new_file
   | ifPush | ifPop | ifUnwind                       -- #if stack
   | fnPush | fnPop                                  -- push_function_context / pop_function_context
+  | fnFlagSet                                       -- lexer saw `(:` followed by an identifier: function_flag = 1
   deriving Repr, DecidableEq
 
 /-- observable outputs: the trace points (event, cursor after, allocation size) and the end-of-compile reports -/
@@ -237,10 +238,11 @@ structure Lex where
   ifDepth : Nat
   fnCount : Nat        -- last_function_context + 1
   fnRefused : Nat      -- refused_function_contexts
+  fnFlag : Bool        -- function_flag: the next identifier opens a functional
   bad : Bool
   deriving Repr
 
-def Lex.init : Lex := ⟨0, 0, 0, 0, 0, false⟩
+def Lex.init : Lex := ⟨0, 0, 0, 0, 0, false, false⟩
 
 def incLimit : Nat := maxIncludeDepth - 1
 
@@ -260,8 +262,10 @@ def stepLex (s : Lex) (e : Ev) : Lex × List Out :=
       let s' := { s with incnum := s.incnum - 1, incDepth := s.incDepth - 1 }
       (s', [.ev "inc.pop" s'.incDepth incLimit, .ev "inc.num" s'.incnum incLimit])
   | .lexStart =>
-    ({ s with incnum := 0, fnCount := 0, fnRefused := 0 },
-     [.ev "lex.start" s.incDepth incLimit, .ev "lex.start.if" s.ifDepth s.ifDepth])
+    -- repaired code: start_new_file() also clears function_flag
+    ({ s with incnum := 0, fnCount := 0, fnRefused := 0, fnFlag := false },
+     [.ev "lex.start" s.incDepth incLimit, .ev "lex.start.if" s.ifDepth s.ifDepth, .ev "lex.start.fnflag" 0 0])
+  | .fnFlagSet => ({ s with fnFlag := true }, [.ev "fnflag.set" 1 1])
   | .lexEnd =>
     ({ s with incDepth := 0, ifDepth := 0 }, [.ev "lex.end" s.incDepth incLimit, .ev "lex.end.if" s.ifDepth s.ifDepth])
   | .ifPush => let d := s.ifDepth + 1; ({ s with ifDepth := d }, [.ev "if.push" d d])
